@@ -88,7 +88,13 @@ func RunHuge(n int, seed int64) (*HugeResult, error) {
 		}
 		ok := true
 		if ok, _, _ = deliver("createpool-short", &vtypes.MsgCreateVestingPool{Owner: owner.String(), Name: "short", Amount: sdk.NewIntFromBigInt(a1), Duration: time.Hour, VestingType: "hv"}); ok {
-			ok, _, _ = deliver("createpool-long", &vtypes.MsgCreateVestingPool{Owner: owner.String(), Name: "long", Amount: sdk.NewIntFromBigInt(a2), Duration: 10 * time.Hour, VestingType: "hv"})
+			// the long pool is locked for ten hours or for two and a half centuries (a legal duration; its lock end lies beyond what UnixNano can hold)
+			longDur := 10 * time.Hour
+			if rng.Intn(3) == 0 {
+				longDur = 250 * 365 * 24 * time.Hour
+				res.Kinds["lock-of-centuries"]++
+			}
+			ok, _, _ = deliver("createpool-long", &vtypes.MsgCreateVestingPool{Owner: owner.String(), Name: "long", Amount: sdk.NewIntFromBigInt(a2), Duration: longDur, VestingType: "hv"})
 		}
 		if ok {
 			backed("createpool")
@@ -109,6 +115,11 @@ func RunHuge(n int, seed int64) (*HugeResult, error) {
 				res.Kinds["explicit-withdraw"]++
 				var r *sdk.Result
 				if ok, r, _ = deliver("withdraw", &vtypes.MsgWithdrawAllAvailable{Owner: owner.String()}); ok && r != nil {
+					// C18: one typed event per paying pool, carrying what that pool paid
+					evs, perr := withdrawEvents(r.Events)
+					if want := []string{"short:" + a1.String() + "uc4e"}; perr != nil || fmt.Sprint(evs) != fmt.Sprint(want) {
+						fs = append(fs, walk.Finding{Prop: "C18", Kind: "predicate", Sig: "huge.pools.withdraw-events", Msg: "withdrawal events differ from what the matured pool paid", Path: []graph.M{desc}, Expected: want, Observed: evs})
+					}
 					for _, x := range r.MsgResponses {
 						if wr, isw := x.GetCachedValue().(*vtypes.MsgWithdrawAllAvailableResponse); isw && !wr.Withdrawn.Amount.Equal(sdk.NewIntFromBigInt(a1)) {
 							fail("C06", "huge.pools.withdraw-response", "withdraw response differs from the matured remainder", a1.String(), wr.Withdrawn.String())
